@@ -17,6 +17,7 @@ pub fn all_sites() -> Vec<(&'static str, SiteFn)> {
         ("CmpGen", site_cmp as SiteFn),
         ("SizeGen", site_size as SiteFn),
         ("PipeGen", site_pipe as SiteFn),
+        ("ExtGen", site_ext as SiteFn),
     ]
 }
 
@@ -949,5 +950,82 @@ fn site_pipe(src: &Path) -> String {
     let eb = qs(&ee.block).replace(' ', "");
     let code = between(&eb, "exit(", ")").expect("error_exit code");
     writeln!(o, "Definition status_error_exit : N := {}%N.", code).unwrap();
+    o
+}
+
+// ---------------- util::has_extension and the default extension lists of config.rs ----------------
+
+// `for x in xs { if C { return true; } } false`  ==>  existsb (fun x => C) xs, where C is a method call
+// `recv.ends_with(x)` / `recv.starts_with(x)` / `recv == x` on the lower-cased name
+fn site_ext(src: &Path) -> String {
+    let file = read_file(src, "util/mod.rs");
+    let f = find_fn(&file.items, "has_extension").expect("has_extension");
+    let mut o = String::from(HDR_N);
+    o.push_str("(* from src/util/mod.rs, fn has_extension *)\n");
+    let stmts = &f.block.stmts;
+    if stmts.len() != 3 { panic!("has_extension: {} statements, expected let / for / false", stmts.len()); }
+    // let s = file_name.to_ascii_lowercase();
+    let (svar, lowered) = match &stmts[0] {
+        Stmt::Local(l) => {
+            let name = qs(&l.pat);
+            let init = qs(&l.init.as_ref().expect("let without init").expr).replace(' ', "");
+            if init != "file_name.to_ascii_lowercase()" { panic!("has_extension: the name is prepared by `{}`", init); }
+            (name, "(ascii_lower file_name)")
+        }
+        s => panic!("has_extension: first statement {}", qs(s)),
+    };
+    // for ext in extensions { if s.ends_with(ext) { return true; } }
+    let test = match &stmts[1] {
+        Stmt::Expr(Expr::ForLoop(fl), _) => {
+            let x = qs(&fl.pat);
+            if qs(&fl.expr).replace(' ', "") != "extensions" { panic!("has_extension: loop over {}", qs(&fl.expr)); }
+            if fl.body.stmts.len() != 1 { panic!("has_extension: loop body with {} statements", fl.body.stmts.len()); }
+            match &fl.body.stmts[0] {
+                Stmt::Expr(Expr::If(i), _) => {
+                    if i.else_branch.is_some() { panic!("has_extension: else branch in the loop"); }
+                    let then = qs(&i.then_branch).replace(' ', "");
+                    if then != "{returntrue;}" { panic!("has_extension: loop body does `{}`", then); }
+                    match &*i.cond {
+                        Expr::MethodCall(m) if qs(&m.receiver) == svar && m.args.len() == 1 && qs(&m.args[0]) == x => {
+                            match m.method.to_string().as_str() {
+                                "ends_with" => format!("(fun {} : str => ends_with {} {})", x, x, lowered),
+                                "starts_with" => format!("(fun {} : str => starts_with {} {})", x, x, lowered),
+                                other => panic!("has_extension: test method {}", other),
+                            }
+                        }
+                        c => panic!("has_extension: test `{}`", qs(c)),
+                    }
+                }
+                s => panic!("has_extension: loop body {}", qs(s)),
+            }
+        }
+        s => panic!("has_extension: second statement {}", qs(s)),
+    };
+    match &stmts[2] {
+        Stmt::Expr(e, None) if qs(e) == "false" => {}
+        s => panic!("has_extension: final expression {}", qs(s)),
+    }
+    writeln!(o, "Definition has_extension (file_name : str) (extensions : list str) : bool := existsb {} extensions.", test).unwrap();
+    // default lists: Config::default() fields `is_*: vec_of_strings![...]`
+    let cfg = read_file(src, "config.rs");
+    let text = qs(&cfg);
+    o.push_str("(* from src/config.rs, Config::default *)\n");
+    let mut names = vec![];
+    let mut rest = text.as_str();
+    while let Some(i) = rest.find(": vec_of_strings ! [") {
+        let head = rest[..i].trim_end();
+        let name = head.rsplit(|c: char| !(c.is_alphanumeric() || c == '_')).next().unwrap().to_string();
+        let tail = &rest[i + ": vec_of_strings ! [".len()..];
+        let end = tail.find(']').expect("vec_of_strings without ]");
+        let items: Vec<String> = tail[..end].split(',').map(|x| x.trim()).filter(|x| !x.is_empty()).map(|x| {
+            if !(x.starts_with('"') && x.ends_with('"')) { panic!("default list {}: item {}", name, x); }
+            coq_str(&x[1..x.len() - 1])
+        }).collect();
+        writeln!(o, "Definition default_{} : list str := [{}].", name, items.join("; ")).unwrap();
+        names.push(name);
+        rest = &tail[end..];
+    }
+    if names.len() < 9 { panic!("only {} default extension lists found", names.len()); }
+    writeln!(o, "Definition default_lists : list (str * list str) := [{}].", names.iter().map(|n| format!("({}, default_{})", coq_str(n), n)).collect::<Vec<_>>().join("; ")).unwrap();
     o
 }
